@@ -463,3 +463,84 @@ pub fn clean_set_strategy(min_samples: usize, max_samples: usize) -> BoxedStrate
         .prop_map(|(k, rc, anc, samples)| SetCase { k, rc, anc, samples })
         .boxed()
 }
+
+// ---------------------------------------------------------------------------------------
+// Greedy construction of sequences with unique words on both strands
+
+/// canonical key of a window: if `split`, the window without its middle base; strands merged
+pub fn word_key(w: &[u8], split: bool) -> (Vec<u8>, bool) {
+    let r = revcomp(w);
+    let (a, b) = if split {
+        let h = (w.len() - 1) / 2;
+        let mut a = w[..h].to_vec();
+        a.extend_from_slice(&w[h + 1..]);
+        let mut b = r[..h].to_vec();
+        b.extend_from_slice(&r[h + 1..]);
+        (a, b)
+    } else {
+        (w.to_vec(), r)
+    };
+    let self_rc = a == b;
+    (if a <= b { a } else { b }, self_rc)
+}
+
+/// Greedy extension: append `len` bases taken from `material` (cyclic), replacing a base by the
+/// next one in rotation whenever the newest window of size `w` would repeat a word already in
+/// `seen` (either strand) or be its own reverse complement. None if some position has no valid base.
+pub fn unique_seq(
+    material: &[u8],
+    len: usize,
+    w: usize,
+    split: bool,
+    seen: &mut std::collections::HashSet<Vec<u8>>,
+) -> Option<Vec<u8>> {
+    let mut s: Vec<u8> = Vec::with_capacity(len);
+    for i in 0..len {
+        let m = if material.is_empty() { 0 } else { material[i % material.len()] & 3 } as usize;
+        let mut placed = false;
+        for t in 0..4 {
+            let b = BASES[(m + t) % 4];
+            s.push(b);
+            if s.len() >= w {
+                let (key, self_rc) = word_key(&s[s.len() - w..], split);
+                if self_rc || seen.contains(&key) {
+                    s.pop();
+                    continue;
+                }
+                seen.insert(key);
+            }
+            placed = true;
+            break;
+        }
+        if !placed {
+            return None;
+        }
+    }
+    Some(s)
+}
+
+/// Do all windows of all given sequences have unique words (both strands), where the same
+/// word may recur only at the same `origin`? `items`: (sequence, origin id per window start).
+/// Returns false on any collision between different origins or on a self-rc word.
+pub fn words_consistent(items: &[(Vec<u8>, Vec<u64>)], w: usize, split: bool) -> bool {
+    let mut map: std::collections::HashMap<Vec<u8>, u64> = std::collections::HashMap::new();
+    for (seq, origins) in items {
+        if seq.len() < w {
+            continue;
+        }
+        for i in 0..=(seq.len() - w) {
+            let (key, self_rc) = word_key(&seq[i..i + w], split);
+            if self_rc {
+                return false;
+            }
+            match map.get(&key) {
+                Some(o) if *o != origins[i] => return false,
+                Some(_) => {}
+                None => {
+                    map.insert(key, origins[i]);
+                }
+            }
+        }
+    }
+    true
+}
